@@ -116,6 +116,17 @@ def run(ctx):
         c = rng.random()
         n = rng.randint(-10, 10) if c < 0.3 else rng.randint(-2**53, 2**53) if c < 0.6 else rng.randint(-2**63, 2**63 - 1)
         reqs.append({"op": "f64", "fn": fn, "x": f2b(x), "y": f2b(y), "n": n})
+    # constructors must reject input of the wrong length (a constructor that drops or invents elements cannot round-trip them)
+    wl = []
+    for D in range(1, 9):
+        for extra in (-1, 1, 3):
+            if D + extra >= 0:
+                wl.append({"op": "vec", "fn": "roundtrip", "D": D, "a": [f2b(float(k + 1)) for k in range(D + extra)], "b": [], "s": f2b(0.0)})
+    for r, a in zip(wl, run_harness(wl)):
+        ctx.case(r, nontrivial=True); ctx.count("vec.from_vec_wrong_length")
+        if a.get("status") != "panic":
+            ctx.violation(f"Vector::<_, {r['D']}>::from_vec accepted {len(r['a'])} elements (constructors round-trip their elements: "
+                          "wrong-length input must be rejected, not truncated or padded)", r, expected="panic (invalid dimension)", observed=a)
     impl = run_harness(reqs)
     model = run_driver(reqs)
     for r, a, m in zip(reqs, impl, model):
